@@ -335,10 +335,8 @@ func funcValueLookupTable(v ssa.Value) string {
 		case *ssa.Extract:
 			return rec(x.Tuple)
 		case *ssa.Lookup:
-			if u, ok := x.X.(*ssa.UnOp); ok {
-				if gl, ok := u.X.(*ssa.Global); ok {
-					return gl.Name()
-				}
+			if gls, ok := core.TableGlobals(x.X, nil); ok && len(gls) > 0 {
+				return gls[0].Name()
 			}
 		}
 		return ""
